@@ -19,12 +19,20 @@ RULE = ("random circuits on 2..5 qubits, up to 14 instructions from {1q gate, 2q
         "barrier (partial/full, unlabelled or foreign label), full-width barrier labelled SAMPLE_OBSERVABLES in random case}; "
         "modes strong+sampling, strong without sampling, weak; non-trivial = contains a labelled barrier or a measure/plain "
         "barrier between gates; distinct by (instruction list, mode)")
-TRUSTED = ["correspondence harness: recording stubs in digital_tjm's namespace; DAG abstracted as an instruction list",
+TRUSTED = ["translator harness/gen/translate_layer.py (process_layer -> Gen/LayerGen.v; str.upper() modelled on ASCII letters), validated against the real process_layer on every run",
+           "correspondence harness: recording stubs in digital_tjm's namespace; DAG abstracted as an instruction list",
            "modelled, not verified: Qiskit's DAGCircuit.front_layer/remove_op_node behave as documented (checked by the word "
            "correspondence on random circuits)"]
 ASSUMES = ["labelled barriers span all qubits (a partial labelled barrier has no canonical 'state at the barrier')"]
 
 HEADER = "From Coq Require Import List. Import ListNotations.\nFrom Yaqs Require Import Model.DigitalLoop."
+
+
+def regenerate(ctx):
+    """coq/Gen/LayerGen.v from the current source of process_layer (fail closed)"""
+    from gen import translate_layer
+
+    translate_layer.regenerate()
 
 
 def gen_circuit(rng, n=None, m=None, gateset=("rx", "ry", "h", "cx", "rzz", "rxx"), allow_sbar=True, partial_sbar=False):
@@ -179,8 +187,67 @@ def model_events(v):
     return out
 
 
+def layer_rule_correspondence(ctx):
+    """validation of the translator: the real process_layer on the front layers of random circuits; for every node, the group the
+    source puts it into vs Gen/LayerGen.classify_src evaluated on the node's description (name, label, number of qubits, indices),
+    and the order inside each group vs the generated sort keys"""
+    from qiskit.converters import circuit_to_dag
+
+    import mqt.yaqs.digital.digital_tjm as D
+
+    hdr = ("From Coq Require Import List String. Import ListNotations.\nFrom Yaqs Require Import Model.DigitalLoop Model.LayerRule Gen.LayerGen.\n"
+           "Local Open Scope string_scope.")
+    cases, exprs, impl = [], [], []
+    for k in range(ctx.scale(25, 300)):
+        n, instrs = gen_circuit(ctx.rng, partial_sbar=(k % 2 == 0))
+        dag = circuit_to_dag(build_qiskit(n, instrs))
+        for _ in range(40):
+            if not dag.op_nodes():
+                break
+            layer = list(dag.front_layer())
+            descr = {}
+            for nd in layer:
+                qi = [q._index for q in nd.qargs]  # noqa: SLF001
+                lab = getattr(nd.op, "label", None)
+                descr[nd._node_id] = (nd.op.name, lab, len(qi), qi[0] if qi else 0, qi[1] if len(qi) > 1 else 0)
+            try:
+                singles, evens, odds, sbs = D.process_layer(dag)
+            except Exception as e:  # noqa: BLE001
+                ctx.mismatch("process_layer raised on a circuit of one- and two-qubit gates", {"qubits": n, "instrs": [list(x) for x in instrs]}, repr(e), "no exception", key="layer-rule")
+                break
+            left = {x._node_id for x in dag.op_nodes()}
+            group = {}
+            for lst, c in ((singles, "CSingle"), (evens, "CEven"), (odds, "COdd"), (sbs, "CSample")):
+                for nd in lst:
+                    group[nd._node_id] = c if nd._node_id not in group else "twice"
+            for nd in layer:
+                got = group.get(nd._node_id, "CDrop" if nd._node_id not in left else "left in the DAG, in no group")
+                nm, lab, nq, q0, q1 = descr[nd._node_id]
+                if lab is not None and (not str(lab).isascii() or '"' in str(lab)):
+                    continue
+                gl = "None" if lab is None else f'(Some "{lab}")'
+                exprs.append(f'classify_src {{| d_name := "{nm}"; d_label := {gl}; d_nq := {nq}%nat; d_q0 := {q0}%nat; d_q1 := {q1}%nat |}}')
+                impl.append(got)
+                cases.append({"name": nm, "label": lab, "qubits": [q0, q1][:max(nq, 1)] if nq <= 2 else nq})
+            for lst, keyname in ((singles, "single"), (evens, "even"), (odds, "odd")):
+                ks = [descr[nd._node_id] for nd in lst]
+                keys = [d[3] if keyname == "single" else min(d[3], d[4]) for d in ks]
+                if keys != sorted(keys):
+                    ctx.mismatch(f"order of the {keyname} group vs LayerGen.{keyname}_key_src", {"qubits": n, "instrs": [list(x) for x in instrs]}, keys, sorted(keys), key="layer-rule")
+            for nd in list(singles) + list(evens) + list(odds) + list(sbs):
+                dag.remove_op_node(nd)
+    vals = common.coq_eval_sharded(hdr, exprs, tag="c16l")
+    for c, got, v in zip(cases, impl, vals):
+        want = v[0] if isinstance(v, common.App) else str(v)
+        ctx.case(nontrivial_key=("layer", c["name"], str(c["label"]), str(c["qubits"])) if c["name"] in ("barrier", "measure") or isinstance(c["qubits"], list) and len(c["qubits"]) == 2 else None, validated=True)
+        ctx.count("layer_rule_nodes")
+        if got != want:
+            ctx.mismatch("process_layer's treatment of a front-layer node vs Gen/LayerGen.classify_src", c, got, want, key="layer-rule")
+
+
 def correspond(ctx):
     ctx.rules.append(RULE)
+    layer_rule_correspondence(ctx)
     corpus = [
         (3, [(0, "G1", [0], "rx", 0.1), (1, "SBar", [0, 1, 2], "barrier", "SAMPLE_OBSERVABLES"), (2, "G2", [1, 2], "cx", 0.12)]),
         (2, [(0, "SBar", [0, 1], "barrier", "sample_observables"), (1, "SBar", [0, 1], "barrier", "SAMPLE_OBSERVABLES")]),
@@ -485,6 +552,13 @@ def search(ctx):
         if k == 0:
             n, instrs = 3, [(0, "G1", [0], "h", 0.1), (1, "G2", [0, 1], "cx", 0.1), (2, "SBar", [0, 1, 2], "barrier", "sample_observables"),
                             (3, "G2", [2, 1], "rxx", 0.7), (4, "Meas", [0], "measure", None), (5, "G1", [2], "ry", 0.4)]
+        if k == 2:  # a labelled barrier as the last instruction, and one followed only by measurements of every qubit
+            n, instrs = 3, [(0, "G1", [0], "h", 0.1), (1, "G2", [0, 1], "cx", 0.1), (2, "G1", [2], "ry", 0.6), (3, "SBar", [0, 1, 2], "barrier", "SAMPLE_OBSERVABLES")]
+        if k == 4:
+            n, instrs = 2, [(0, "G1", [1], "ry", 0.8), (1, "SBar", [0, 1], "barrier", "Sample_Observables"), (2, "G2", [0, 1], "cx", 0.1),
+                            (3, "SBar", [0, 1], "barrier", "sample_observables"), (4, "Meas", [0], "measure", None), (5, "Meas", [1], "measure", None)]
+        if k == 5:  # plain barriers and measurements only at the end, after the last gate
+            n, instrs = 3, [(0, "G1", [1], "h", 0.1), (1, "G2", [1, 2], "rzz", 0.5), (2, "Bar", [0, 1, 2], "barrier", ""), (3, "Meas", [2], "measure", None)]
         args = {"n": n, "instrs": [list(x) for x in instrs]}
         if k % 3 == 1:
             hist = []
